@@ -270,10 +270,11 @@ package websocket
 //@ ensures [exhausted] old(lr.n) == 0 ==> result0 == 0 && result1 != nil && !errIs(result1, io.EOF) && !errIs(result1, io.ErrUnexpectedEOF)
 //@ ensures [budget] old(lr.n) > 0 ==> int64(result0) <= old(lr.n) && lr.n == old(lr.n)-int64(result0)
 //@ ensures [payload-nonneg] lr.c.msgReader.payloadLength >= 0
+//@ ensures [dict-released-only] lr.c.msgReader.dict == old(lr.c.msgReader.dict) || lr.c.msgReader.dict == nil
 
 //@ func (*msgReader).Read
 //@ tags C04 C03 C08
-//@ requires connInv(mr.c) && mr.c.msgReader == mr && mr.ctx != nil && !gvcHeld(mr.c.readMu.ch) && ghconn(mr.limitReader.r) == mr.c && mr.limitReader.r != nil && (mr.flate ==> mr.c.copts != nil) && (mr.flate && !specReceiverNoTakeover(mr.c.client, mr.c.copts) ==> mr.dict != nil && cap(mr.dict.buf) > 0)
+//@ requires connInv(mr.c) && mr.c.msgReader == mr && mr.ctx != nil && !gvcHeld(mr.c.readMu.ch) && ghconn(mr.limitReader.r) == mr.c && mr.limitReader.r != nil && (mr.flate ==> mr.c.copts != nil) && (mr.flate && !specReceiverNoTakeover(mr.c.client, mr.c.copts) ==> mr.dict != nil && cap(mr.dict.buf) > 0 && gvcRegion(mr.dict.buf) != gvcRegion(p))
 //@ modifies bytes(p), mr.limitReader.n, mr.fin, mr.payloadLength, mr.maskKey, $RDFPm, $WRFPm, $CLFPm, bytes(mr.dict.buf), mr.dict.buf
 //@ ensures [n] 0 <= n && n <= len(p)
 //@ ensures [eof-complete] {C04} errIs(err, io.EOF) ==> mr.fin && mr.payloadLength == 0
